@@ -392,7 +392,8 @@ def _build(sysdoc: dict):
                 acc += float(params[k * sd + j]) * float(state[j])
             out[k] = acc if abs(acc) <= blow else math.nan
     train = np.array(sysdoc["train"], dtype=float)
-    system = System("simsys", sd, cd, 0, int(sysdoc["in_j"]),
+    system = System("sys" + core.digest(sysdoc)[:10], sd, cd, 0,
+                    int(sysdoc["in_j"]),
                     float(sysdoc["gamma"]), train.copy(), train.copy(),
                     10, 1.0, int(sysdoc["steps"]), float(sysdoc["time"]), (0,))
     system.equations = equations
